@@ -121,6 +121,7 @@ pub fn resp_case(u: &mut Unstructured<'_>) -> R<RespCase> {
         upgrade: None,
         utf8: u.arbitrary()?,
         plan: if u.ratio(1, 3)? { 0 } else { u.arbitrary()? },
+        wmode: if u.ratio(2, 3)? { 0 } else { u.int_in_range(0..=5u8)? },
     })
 }
 
@@ -225,7 +226,7 @@ pub fn conv_case(u: &mut Unstructured<'_>) -> R<(&'static str, ConvCase)> {
                 1 => Malform::VersionToken(pick(u, &["HTTP/1.2", "HTTP/2", "http/1.1", "HTTP/1.1x", "xyz"])?.to_string()),
                 2 => Malform::VersionToken(pick(u, &["HTTP/2.0", "HTTP/3.0"])?.to_string()),
                 3 => Malform::HeaderNoColon { at: u.int_in_range(0..=nh)?, text: pick(u, &["NoColon", " ", "\t", "a b"])?.to_string() },
-                4 => Malform::NonAscii { place: pick(u, &[Place::RequestLine, Place::HeaderName(0), Place::HeaderValue(0)])?, byte: u.int_in_range(0x80u8..=0xff)? },
+                4 => Malform::NonAscii { place: pick(u, &[Place::RequestLine, Place::HeaderName(0), Place::HeaderValue(0)])?, byte: u.int_in_range(0x80u8..=0xff)?, tail: vec![] },
                 5 => Malform::Expect(pick(u, &["100 continue", "200-ok", ""])?.to_string()),
                 6 => Malform::WsBeforeName { at: u.int_in_range(0..=nh - 1)?, ws: pick(u, &[" ", "\t"])?.to_string() },
                 7 => Malform::WsInName { at: u.int_in_range(0..=nh - 1)?, ws: " ".into() },
